@@ -16,13 +16,30 @@ from harness.props import xpath_common as X
 MANIFEST = dict(
     category="proof",
     technique="Lean 4 theorems over a hand-written model of the xpath engine + differential correspondence with the implementation",
-    text="Lean: xpath() enumeration equals the document-order DFS of scalar leaves with canonical paths (C01_enum_is_leaves, "
-         "leaves complete/no duplicates), the token layer (tokenisation of a rendered path, split_name_index and n0eval on "
-         "rendered steps and on the index spellings i, i-len, last(), last()-k, i+j) and the tree layer (a token list that "
-         "spells a position resolves through the model of _find to exactly that node, parent reference = parent position, "
-         "out-of-range index = miss), unbounded in tree size/depth. The model of _find/_get/get/first (dict and list roots, "
-         "plain or n0 classes) is compared with the real code on enumerated paths, random spellings, misses and token soup; "
-         "the statement itself (identity `is`, all spellings, both roots and class taggings) is executed on the implementation.",
+    text="Lean (Props/C01.lean; all theorems unbounded in tree size/depth; keys are plain names): "
+         "(1) enumeration: xpath() of any tree is the document-order DFS list of its scalar leaves, each under its canonical "
+         "path (C01_enum_is_leaves; the DFS `leaves` is the reference, it visits every leaf position once by construction) and "
+         "every enumerated pair is a scalar leaf sitting at that position (C01_enum_sound). "
+         "(2) token layer: tokenisation of a canonical path (tokenize_render) and of every spelling - prefix none, '/' or '//', "
+         "'][' vs ']/[', 'a[i]' vs 'a/[i]' - gives the same tokens (C01_spelling_tokens); split_name_index and n0eval on those "
+         "tokens and on the index spellings i, -k (i-len), last(), last()-k, i+j denote the element Python indexing gives "
+         "(C01_index_spellings, C01_idx_spelling_eval). "
+         "(3) tree layer: a token list that spells a position resolves through the model of n0dict._find (C01_find_spelled) and "
+         "of n0list._find (C01_findL_spelled: leading index, nested lists stay in n0list._find, a dict element is handed to "
+         "n0dict._find) to exactly that node, parent reference = parent position (C01_spelling_spells: the tokens of a "
+         "spelling spell the position plain Python indexing reaches). "
+         "(4) end to end, tree unchanged: item access and get on the canonical path of every node of a dict-rooted tree "
+         "(C01_resolves_node), hence of every enumerated pair, also through first (C01_resolves, C01_resolves_first); of a "
+         "list-rooted tree addressed with a leading index, with or without the leading '/' (C01_list_root_node); bare index "
+         "texts on a list root, l['0'], '-1', 'last()', 'last()-k', 'i+j' (C01_list_root_bare); every spelling at the string "
+         "level returns what plain Python indexing returns, both roots (C01_spellings_string, C01_spellings_string_list; "
+         "first = the same element, a one-element list unwrapped: C01_spellings_first); an index out of range after a walk "
+         "along existing nodes is a miss in every spelling on both roots: item access raises IndexError, get/first return "
+         "the default, tree unchanged (C01_out_of_range_miss). "
+         "Differential only (not Lean theorems): object identity `is`; n0/plain class taggings beyond what the model tracks; "
+         "misses of other kinds (unknown key, step below a leaf); the agreement of the model of _find/_get/get/first with "
+         "the real code (compared on enumerated paths, random spellings, misses and token soup); the statement itself "
+         "(identity, all spellings, both roots and class taggings) is executed on the implementation.",
     note="object identity is outside the value model (checked on the implementation side only); keys are plain names; "
          "floats are opaque lexemes.",
     design_ref="5/C01",
